@@ -2,7 +2,8 @@ SPECIFICATION Spec
 CONSTANTS Raw = TRUE
           Pipes = {1, 2}
           MaxMsgs = 4
-          MaxOps = 1
+          MaxOps = 4
+          NbSend = FALSE
           MaxCap = 2
 INVARIANTS PerPeerOrder NoEcho Once GotOrder Bounded PollR
 VIEW View
